@@ -14,7 +14,7 @@ from ..refs import tlvcfg
 ID = "C11"
 LEVEL = "exploration"
 RULE = (
-    "history = sequence of operations over {set_config(c0..c11), derive_comments(c), derive_auth_blocks(c, ecc|cust), append / insert-at-0 / insert-in-middle "
+    "history = sequence of operations over {set_config(c0..c13), derive_comments(c), derive_auth_blocks(c, ecc|cust), append / insert-at-0 / insert-in-middle "
     "of a firmware component with or without TYPE tag, write+read back (replacing the object), foreign comment edit, write-and-check keeping the same object}; ALL sequences up to length 4 (quick) / 5 "
     "(thorough) over a reduced 10-letter alphabet plus seeded random sequences of length 5..25 over the full alphabet; the model is compared with the real "
     "objects after every operation. distinct = digest of the operation sequence; non-trivial = contains at least one set_config or derive operation"
@@ -22,7 +22,7 @@ RULE = (
 ASSUMPTIONS = [
     "the configuration must be last right after a set_config; a caller appending a component after it is the caller's choice",
     "block set is fixed only for a file that had none; later derivations are checked for 'initial kind present' and 'update block matches when code and identifier exist'",
-    "RequiresBusAddress is judged for value absent (-> absent) and non-zero value (-> 'Yes'); a present all-zero value is not judged",
+    "RequiresBusAddress is judged for value absent (-> absent) and non-zero value (-> 'Yes'); a present all-zero / empty value is judged against what a fresh object derives from the same configuration (history independence only)",
     "derived comment text = the two documented identifier forms (device settings print project 0000)",
 ]
 TIMEOUT = {"quick": 900, "thorough": 8 * 3600}
@@ -47,6 +47,9 @@ CONFIGS.append({(K, 1): (42).to_bytes(4, "big"), (K, 5): (1).to_bytes(2, "big"),
 # printed form is not parseable as an identifier, which must not matter to a later derivation
 CONFIGS.append({(K, 1): (123456).to_bytes(4, "big"), (K, 5): (65535).to_bytes(2, "big"), (K, 7): b"\xff", (K, 6): b"Wide", CODE: bytes([0x47] * 8)})
 CONFIGS.append({(K, 1): (7).to_bytes(2, "big"), (K, 2): (12345).to_bytes(2, "big"), (K, 4): b"\xc8", (K, 3): b"WideDev", (K, 7): b"\x64", (K, 6): b"V100"})
+# bus-address value present but all-zero / empty (meaning not stated; judged for history independence only)
+CONFIGS.append({(K, 7): b"\x05", (K, 6): b"ZeroBus", (K, 0x20): b"\x00", CODE: bytes([0x48] * 8)})
+CONFIGS.append({(K, 1): (9).to_bytes(2, "big"), (K, 4): b"\x01", (K, 3): b"EmptyBus", (K, 0x20): b""})
 NCFG = len(CONFIGS)
 CUST_KEY = bytes([0x12, 0x34] * 8)
 
@@ -135,7 +138,16 @@ class Runner:
             elif r is None:
                 self.m.comments.pop("RequiresBusAddress", None)
             else:
-                self.m.comments["RequiresBusAddress"] = "?"
+                # a present all-zero / empty value: what it should mean is not stated, but the comment must still depend on this
+                # configuration only - the expectation is what a FRESH object derives from the same configuration
+                fresh = BF.Bf3File({})
+                fresh.derive_comments_from_config(dict(conf))
+                ref = fresh.comments.get("RequiresBusAddress")
+                self.ctx.bin("bus_address_value_zero_or_empty_judged_against_fresh_object")
+                if ref is None:
+                    self.m.comments.pop("RequiresBusAddress", None)
+                else:
+                    self.m.comments["RequiresBusAddress"] = ref
         elif kind == "auth":
             conf = CONFIGS[op[1]]
             cust = op[2]
@@ -337,7 +349,7 @@ def plan(tier, seed):
 
 def mandatory_bins(tier):
     return ["op_set", "op_comments", "op_auth", "op_append", "op_insert0", "op_insertmid", "op_writeread", "op_writecheck", "op_comment", "op_writeread_bec2", "op_writeread_bf3",
-            "typeless_component_before_configuration", "typeless_component_after_configuration", "two_different_configurations_in_a_row", "derive_after_derive_other_mode", "all_sequences_up_to_bound", "every_ordered_pair_of_configurations"]
+            "typeless_component_before_configuration", "typeless_component_after_configuration", "two_different_configurations_in_a_row", "derive_after_derive_other_mode", "all_sequences_up_to_bound", "every_ordered_pair_of_configurations", "bus_address_value_zero_or_empty_judged_against_fresh_object"]
 
 
 def finish(agg, tier):
